@@ -242,6 +242,9 @@ func (m c02) Run(c *core.Ctx) {
 	}
 	nProbe := len(fixed)
 	fixed = append(fixed, c02arityMatrix()...)
+	for _, src := range gen.RecursionTryMatrix() {
+		fixed = append(fixed, &Program{Src: src, Tags: []string{"recursion-try-matrix"}})
+	}
 	for i, p := range fixed {
 		if i%c.NBatch != c.Batch {
 			continue
